@@ -766,9 +766,28 @@ impl Prop for C16 {
                     _ => {}
                 }
                 for f in shrink_file(file) {
+                    // every damage for small files; for large ones (cost grows with the square of the
+                    // length) every extension, the cuts in the header and in the last values, and
+                    // evenly spaced cuts
+                    let damages = match image(&f) {
+                        Some(img) if img.len() > 20_000 => {
+                            let len = img.len();
+                            let mut list = vec![];
+                            for kind in 0..5u8 {
+                                for n in 1..=16 {
+                                    list.push(Damage::Extend { kind, n });
+                                }
+                            }
+                            list.extend((0..160).map(Damage::Truncate));
+                            list.extend((1..=40).map(|back| Damage::Truncate(len - back)));
+                            list.extend((1..60).map(|i| Damage::Truncate(i * (len / 60) + i % 8)));
+                            Damages::List(list)
+                        }
+                        _ => Damages::All,
+                    };
                     v.push(Case::L1 {
                         file: f,
-                        damages: Damages::All,
+                        damages,
                         via_file: *via_file,
                     });
                 }
